@@ -1,1 +1,112 @@
-From OPF Require Import Model.Sup.
+From Coq Require Import ZArith List Permutation.
+From OPF Require Import Base.Lists Model.Sup Model.Learn Spec.Paths.
+From OPF Require Import Proofs.Predict Proofs.PredictRel Proofs.Learn.
+Import ListNotations.
+
+(* C17 - learning conserves samples and keeps the best model; relevance marking is exact;
+   pruning only discards. *)
+
+(* Supervised learning (Model/Learn.v: learn) only exchanges samples between the training and
+   the validation set: whatever accuracies, error positions, prototype flags, stop decisions
+   and random draws the iterations see, the (row, label) pairs over both sets afterwards are a
+   permutation of the initial ones and the four arrays keep their lengths. *)
+Theorem C17_learn_conserves :
+  forall (R : Type) (its : list iter_in) (n_iterations : nat) (draws : list nat) (st : lstate R),
+    length (l_Xt st) = length (l_Yt st) -> length (l_Xv st) = length (l_Yv st) ->
+    let st' := r_state (learn its n_iterations draws st) in
+    Permutation (combine (l_Xt st' ++ l_Xv st') (l_Yt st' ++ l_Yv st'))
+                (combine (l_Xt st ++ l_Xv st) (l_Yt st ++ l_Yv st)) /\
+    length (l_Xt st') = length (l_Xt st) /\ length (l_Yt st') = length (l_Yt st) /\
+    length (l_Xv st') = length (l_Xv st) /\ length (l_Yv st') = length (l_Yv st).
+Proof. exact (@learn_conserves). Qed.
+
+(* The classifier left in the object is the snapshot of iteration [r_best]: the smallest
+   iteration index whose validation accuracy is maximal among the [r_iters] iterations run. *)
+Theorem C17_learn_keeps_best :
+  forall (R : Type) (its : list iter_in) (n_iterations : nat) (draws : list nat) (st : lstate R),
+    its <> [] ->
+    let res := learn its n_iterations draws st in
+    let acc i := nth i (map it_acc its) 0%Z in
+    (1 <= r_iters res <= length its)%nat /\
+    (r_best res < r_iters res)%nat /\
+    (forall i, (i < r_iters res)%nat -> (acc i <= acc (r_best res))%Z) /\
+    (forall i, (i < r_best res)%nat -> (acc i < acc (r_best res))%Z).
+Proof. exact (@learn_keeps_best). Qed.
+
+(* ... and that snapshot was fitted on the training set exactly as it stood when iteration
+   [r_best] started ([state_at], Proofs/Learn.v, replays the exchanges of the earlier iterations). *)
+Theorem C17_learn_snapshot :
+  forall (R : Type) (its : list iter_in) (n_iterations : nat) (draws : list nat) (st : lstate R),
+    let res := learn its n_iterations draws st in
+    let sb := state_at its (r_best res) draws st in
+    r_snap res = (l_Xt sb, l_Yt sb).
+Proof. exact (@learn_snapshot). Qed.
+
+(* After a prediction pass over [ds] on a model whose predecessor map is a forest (every node
+   reaches a root in fewer than n steps: C01) and whose flags were all clear, training sample t
+   is flagged relevant iff it lies on the predecessor path from the conqueror of some predicted
+   sample to its root; the fuel [S n] of the model's mark_nodes is enough. *)
+Theorem C17_relevant_exact :
+  forall (W : Type) (ltb : W -> W -> bool) (zero : W) (nd : @nodes W) (ds : list (nat -> W)),
+    let n := length (n_cost nd) in
+    let pred q := nth q (n_pred nd) None in
+    (1 <= n)%nat ->
+    length (n_pred nd) = n ->
+    n_relevant nd = repeat false n ->
+    Permutation (n_order nd) (seq 0%nat n) ->
+    (forall q p, (q < n)%nat -> pred q = Some p -> (p < n)%nat) ->
+    (forall q, (q < n)%nat -> exists r k, reaches pred q r k /\ pred r = None /\ (k < n)%nat) ->
+    let nd' := fst (predict_batch ltb zero nd ds) in
+    forall t,
+      nth t (n_relevant nd') false = true <->
+      exists d, In d ds /\ exists c, snd (predict_one ltb zero nd d) = Some c /\
+                                     exists k, reaches pred c t k.
+Proof. exact (@relevant_exact). Qed.
+
+(* the same for positions inside the training set, from the forest premise alone *)
+Theorem C17_relevant_exact_in_range :
+  forall (W : Type) (ltb : W -> W -> bool) (zero : W) (nd : @nodes W) (ds : list (nat -> W)),
+    let n := length (n_cost nd) in
+    let pred q := nth q (n_pred nd) None in
+    length (n_pred nd) = n ->
+    n_relevant nd = repeat false n ->
+    (forall q, (q < n)%nat -> exists r k, reaches pred q r k /\ pred r = None /\ (k < n)%nat) ->
+    let nd' := fst (predict_batch ltb zero nd ds) in
+    length (n_relevant nd') = n /\
+    forall t, (t < n)%nat ->
+      (nth t (n_relevant nd') false = true <->
+       exists d, In d ds /\ exists c, snd (predict_one ltb zero nd d) = Some c /\
+                                      exists k, reaches pred c t k).
+Proof. exact (@relevant_exact_in_range). Qed.
+
+(* with W := Z and the conquest order sorted by cost (C01), the conqueror of C17_relevant_exact
+   is the first minimiser of max(cost, d) in conquest order (C03_predict_is_argmin) *)
+Theorem C17_conqueror_is_winner :
+  forall (zero : Z) (nd : @nodes Z) (d : nat -> Z),
+    let n := length (n_cost nd) in
+    let cost q := nth q (n_cost nd) zero in
+    let val q := Z.max (cost q) (d q) in
+    (1 <= n)%nat ->
+    Permutation (n_order nd) (seq 0%nat n) ->
+    (forall i j, (i < j)%nat -> (j < n)%nat ->
+       (cost (nth i (n_order nd) 0%nat) <= cost (nth j (n_order nd) 0%nat))%Z) ->
+    exists t, (t < n)%nat /\
+      fst (predict_one Z.ltb zero nd d) = nth t (n_plabel nd) 0%nat /\
+      snd (predict_one Z.ltb zero nd d) = Some t /\
+      forall s, (s < n)%nat -> (val t <= val s)%Z.
+Proof. exact predict_label_is_argmin. Qed.
+
+(* Pruning (Model/Learn.v: prune, rounds of "keep the rows flagged relevant") only discards:
+   whatever flags the rounds see, the final training set - rows paired with labels - is a
+   sublist of the original pairing, hence a sub-multiset (the discarded pairs complete it to a
+   permutation); every surviving row keeps its own label; sizes do not grow. *)
+Theorem C17_prune_sublist :
+  forall (R : Type) (flagss : list (list bool)) (Xt : list R) (Yt : list nat),
+    let X' := fst (prune flagss Xt Yt) in
+    let Y' := snd (prune flagss Xt Yt) in
+    sublist (combine X' Y') (combine Xt Yt) /\
+    (exists discarded, Permutation (combine X' Y' ++ discarded) (combine Xt Yt)) /\
+    sublist X' Xt /\ sublist Y' Yt /\
+    (length X' <= length Xt)%nat /\ (length Y' <= length Yt)%nat /\
+    (length Xt = length Yt -> length X' = length Y').
+Proof. exact (@prune_sublist). Qed.
